@@ -13,7 +13,7 @@ use std::collections::{HashMap, HashSet, VecDeque};
 use std::sync::{Arc, Mutex};
 use std::time::{Duration, Instant};
 
-#[derive(Copy, Clone, Debug, PartialEq, Eq, Hash)]
+#[derive(Copy, Clone, Debug, PartialEq, Eq, Hash, PartialOrd, Ord)]
 pub(crate) enum Kind { Pub0, Pub1, Pub2, Sub, Unsub }
 pub(crate) const KINDS: [Kind; 5] = [Kind::Pub0, Kind::Pub1, Kind::Pub2, Kind::Sub, Kind::Unsub];
 
@@ -48,6 +48,7 @@ pub(crate) struct H {
     pub next_tag: u64,
     pub log: Vec<String>,
     pub version: ProtocolVersion,
+    pub t0: Instant,
 }
 
 impl H {
@@ -65,10 +66,11 @@ impl H {
         };
         let version = convert_protocol_mode_to_protocol_version(cfg.mode);
         H { ps: ProtocolState::new(config), cfg, now, results: Arc::new(Mutex::new(Vec::new())), submitted: Vec::new(), events: VecDeque::new(),
-            sent: Vec::new(), sent_this_connection: Vec::new(), out_decoder: Decoder::new(), next_tag: 1, log: Vec::new(), version }
+            sent: Vec::new(), sent_this_connection: Vec::new(), out_decoder: Decoder::new(), next_tag: 1, log: Vec::new(), version, t0: now }
     }
 
     pub fn advance(&mut self, ms: u64) { self.now += Duration::from_millis(ms); }
+    pub fn cfg_base(&self) -> Instant { self.t0 }
 
     fn net(&mut self, event: NetworkEvent) -> GneissResult<()> {
         let mut ctx = NetworkEventContext { event, current_time: self.now, packet_events: &mut self.events };
@@ -120,7 +122,9 @@ impl H {
         r.map(|_| n)
     }
 
-    pub fn submit(&mut self, kind: Kind) -> u64 {
+    pub fn submit(&mut self, kind: Kind) -> u64 { let t = self.cfg.ack_timeout; self.submit_with_timeout(kind, t) }
+
+    pub fn submit_with_timeout(&mut self, kind: Kind, ack_timeout: Option<Duration>) -> u64 {
         let tag = self.next_tag; self.next_tag += 1;
         self.log.push(format!("submit {:?} #{}", kind, tag));
         self.submitted.push((tag, kind));
@@ -131,7 +135,7 @@ impl H {
                 let qos = match kind { Kind::Pub0 => QualityOfService::AtMostOnce, Kind::Pub1 => QualityOfService::AtLeastOnce, _ => QualityOfService::ExactlyOnce };
                 let packet = Box::new(MqttPacket::Publish(PublishPacket { topic, qos, payload: Some(vec![tag as u8; 3]), ..Default::default() }));
                 let mut options = PublishOptions::builder();
-                if let Some(t) = self.cfg.ack_timeout { options = options.with_ack_timeout(t); }
+                if let Some(t) = ack_timeout { options = options.with_ack_timeout(t); }
                 let handler: ResponseHandler<PublishResult> = Box::new(move |r: PublishResult| {
                     let o = match r { Ok(PublishResponse::Qos0) => Outcome::Ok("Qos0".into()), Ok(PublishResponse::Qos1(p)) => Outcome::Ok(format!("Puback:{}", p.packet_id)),
                         Ok(PublishResponse::Qos2(Qos2Response::Pubcomp(p))) => Outcome::Ok(format!("Pubcomp:{}", p.packet_id)),
@@ -142,7 +146,7 @@ impl H {
             Kind::Sub => {
                 let packet = Box::new(MqttPacket::Subscribe(SubscribePacket { subscriptions: vec![Subscription { topic_filter: topic, qos: QualityOfService::AtLeastOnce, ..Default::default() }], ..Default::default() }));
                 let mut options = SubscribeOptions::builder();
-                if let Some(t) = self.cfg.ack_timeout { options = options.with_ack_timeout(t); }
+                if let Some(t) = ack_timeout { options = options.with_ack_timeout(t); }
                 let handler: ResponseHandler<SubscribeResult> = Box::new(move |r: SubscribeResult| {
                     let o = match r { Ok(p) => Outcome::Ok(format!("Suback:{}:{}", p.packet_id, p.reason_codes.len())), Err(e) => Outcome::Err(err_name(&e)) };
                     results.lock().unwrap().push((tag, o)); Ok(()) });
@@ -151,7 +155,7 @@ impl H {
             Kind::Unsub => {
                 let packet = Box::new(MqttPacket::Unsubscribe(UnsubscribePacket { topic_filters: vec![topic], ..Default::default() }));
                 let mut options = UnsubscribeOptions::builder();
-                if let Some(t) = self.cfg.ack_timeout { options = options.with_ack_timeout(t); }
+                if let Some(t) = ack_timeout { options = options.with_ack_timeout(t); }
                 let handler: ResponseHandler<UnsubscribeResult> = Box::new(move |r: UnsubscribeResult| {
                     let o = match r { Ok(p) => Outcome::Ok(format!("Unsuback:{}:{}", p.packet_id, p.reason_codes.len())), Err(e) => Outcome::Err(err_name(&e)) };
                     results.lock().unwrap().push((tag, o)); Ok(()) });
